@@ -98,7 +98,8 @@ theorem partialKeep_zero {raw : Bytes} (h : raw.length - partialMarkerKeep raw =
      what is buffered. -/
 theorem decode_none_zero {bs : Bytes} {tbl : Tbl} {raw : Bytes} (h : decode bs tbl raw = .none 0) :
     (findSub marker raw = none ∧ raw.length ≤ 5 ∧ raw = marker.take raw.length) ∨
-    (isPrefix marker raw = true ∧ closedAtOf raw = none ∧
+    (isPrefix marker raw = true ∧ ckOpen raw = true) ∨
+    (isPrefix marker raw = true ∧ findSub cksumPat raw = none ∧
       (fieldsOf (raw.take (cutOf raw))).length < 3) ∨
     (isPrefix marker raw = true ∧ 3 ≤ (fieldsOf (raw.take (cutOf raw))).length ∧
       raw.length < declaredOf (fieldsOf (raw.take (cutOf raw)))) := by
@@ -117,6 +118,14 @@ theorem decode_none_zero {bs : Bytes} {tbl : Tbl} {raw : Bytes} (h : decode bs t
       simp only [marker, List.length_cons, List.length_nil] at this
       omega
     right
+    split at h
+    · rename_i hopen
+      simp only [DecRes.none.injEq] at h
+      subst h
+      simp only [List.drop_zero] at hb hopen
+      exact Or.inl ⟨by rw [hb]; exact isPrefix_append _ _, hopen⟩
+    rename_i hopen
+    right
     rcases decodeFields_none_zero h with ⟨h1, h2⟩ | h1 | ⟨h1, h2, h3⟩
     · left
       unfold waitResOf at h2
@@ -130,9 +139,13 @@ theorem decode_none_zero {bs : Bytes} {tbl : Tbl} {raw : Bytes} (h : decode bs t
       · rename_i hc
         subst h2
         simp only [List.drop_zero] at hb h1 hc
+        simp only [List.drop_zero] at hopen
         refine ⟨by rw [hb]; exact isPrefix_append _ _, ?_, h1⟩
         cases hcl : closedAtOf raw with
-        | none => rfl
+        | none =>
+          cases hci : findSub cksumPat raw with
+          | none => rfl
+          | some ci => exfalso; apply hopen; simp [ckOpen, hci, hcl]
         | some c => rw [hcl] at hc; simp at hc
     · omega
     · right
@@ -173,7 +186,9 @@ theorem decode_append_closed {bs : Bytes} {tbl : Tbl} {raw : Bytes} {vi c : Nat}
   have hcut : cutOf (raw.drop vi ++ ext) = c := by unfold cutOf; rw [hc', Option.getD_some]
   have hw : waitResOf vi (raw.drop vi ++ ext) = vi + c := by
     unfold waitResOf; rw [hc', hcut]; simp
-  rw [hcut, hw, List.take_append_of_le_length hcle]
+  have hno : ckOpen (raw.drop vi ++ ext) = false := by simp [ckOpen, hc']
+  rw [hno, hcut, hw, List.take_append_of_le_length hcle]
+  simp
 
 /-- Once a complete CheckSum field has arrived (at or after the first marker), the decoder stops
 waiting at the latest when `vi + declared length` bytes are buffered – for EVERY continuation of
